@@ -69,10 +69,18 @@ func c07Name(maxlen int) string {
 func VerifC07() {
 	nn := verifN() / 10
 	maxlen := verifN() % 10
-	shape := uint(0) // 0 chain, 1 root with children
-	if nn >= 3 {
-		shape = verifChoose("shape", 0, 1)
+	// shapes (depth per row): chain; root with two children; and forests with two roots (From-Markdown routes only):
+	// root+child then a second root, two roots the second with a child, two childless roots
+	var shapes [][]uint
+	if nn == 1 {
+		shapes = [][]uint{{0}}
+	} else if nn == 2 {
+		shapes = [][]uint{{0, 1}, {0, 0}}
+	} else {
+		shapes = [][]uint{{0, 1, 2}, {0, 1, 1}, {0, 1, 0}, {0, 0, 1}}
 	}
+	shape := verifChoose("shape", 0, uint(len(shapes)-1))
+	depths := shapes[shape]
 	var names []string
 	allValid := true
 	for i := 0; i < nn; i++ {
@@ -82,23 +90,25 @@ func VerifC07() {
 		}
 		names = append(names, nm)
 	}
-	if shape == 1 {
+	forest := false
+	for i := 1; i < nn; i++ {
+		if depths[i] == 0 {
+			forest = true
+			verifAssume(names[0] != names[i]) // distinct roots
+		}
+	}
+	if nn == 3 && depths[1] == 1 && depths[2] == 1 {
 		verifAssume(names[1] != names[2])
 	}
-	depth := func(i int) uint {
-		if shape == 0 {
-			return uint(i)
-		}
-		if i == 0 {
-			return 0
-		}
-		return 1
-	}
+	depth := func(i int) uint { return depths[i] }
 	var exts []string
 	if verifFlag("ext") {
 		exts = []string{".x"}
 	}
 	route := verifChoose("route", 0, 8)
+	if forest && (route == 2 || route == 3 || route == 7 || route == 8) {
+		verifAssume(false) // From-Root takes one root
+	}
 	// an encode option on a mkdir call selects the no-op grower for Output; it must not switch validation off
 	withEnc := route != 4 && verifFlag("encodeOption")
 	target := c07Target()
@@ -134,12 +144,10 @@ func VerifC07() {
 		err = MkdirFromMarkdown(&verifReader{lines: mdRows()}, opts...)
 	case 2, 3, 7, 8:
 		root := NewRoot(names[0])
-		cur := root
+		at := []*Node{root}
 		for i := 1; i < nn; i++ {
-			c := cur.Add(names[i])
-			if shape == 0 {
-				cur = c
-			}
+			c := at[depths[i]-1].Add(names[i])
+			at = append(at[:depths[i]], c)
 		}
 		opts := []Option{WithTargetDir(target), WithFileExtensions(exts)}
 		if withEnc {
